@@ -195,19 +195,46 @@ def coq_make(targets, timeout=1500, keep_going=True):
         return run(cmd, timeout=timeout, cwd=COQ)
 
 
-def translate_all():
-    """Runs every translator (header -> Generated*.v).  Each returns a list of
-    problems (regions it could no longer parse)."""
+def translate_all(only_for=None):
+    """Runs the translators (header -> Generated*.v).  Each translator names its
+    output in a line `OUTPUT: GeneratedX.v` of its docstring.  With only_for =
+    a set of Coq module names, only the translators whose output module is in
+    that set run (a check regenerates what its own theorems depend on).  Returns
+    a list of problems (regions a translator could no longer parse)."""
     problems = []
     tdir = os.path.join(VERIF, "translate")
     if not os.path.isdir(tdir):
         return problems
     for f in sorted(os.listdir(tdir)):
         if f.endswith(".py") and not f.startswith("_"):
-            rc, out = run([sys.executable, os.path.join(tdir, f), REPO, os.path.join(COQ, "theories")], timeout=120)
+            txt = open(os.path.join(tdir, f)).read()
+            outs = re.findall(r"(Generated[A-Za-z0-9_]*)\.v", txt)
+            if only_for is not None and not (set(outs) & set(only_for)):
+                continue
+            with Lock("translate_" + f):
+                rc, out = run([sys.executable, os.path.join(tdir, f), REPO, os.path.join(COQ, "theories")], timeout=120)
             if rc != 0:
                 problems.append("%s: %s" % (f, out.strip()[-2000:]))
     return problems
+
+
+def coq_module_closure(pid):
+    """Names of the Pops modules Properties_<pid>.v depends on (transitively),
+    including generated ones that may not exist yet."""
+    seen = set()
+    todo = ["Properties_%s" % pid]
+    while todo:
+        mname = todo.pop()
+        if mname in seen:
+            continue
+        seen.add(mname)
+        p = os.path.join(COQ, "theories", mname + ".v")
+        if not os.path.exists(p):
+            continue
+        txt = strip_coq_comments(open(p).read())
+        for m in re.finditer(r"From\s+Pops\s+Require\s+(?:Import|Export)\s+([^.]+)\.", txt):
+            todo += m.group(1).split()
+    return seen
 
 
 class ProofResult:
@@ -231,7 +258,7 @@ def prove(pid, timeout=1500):
     bad = forbidden_scan()
     if bad:
         res.problems += ["forbidden construct: " + b for b in bad]
-    tp = translate_all()
+    tp = translate_all(only_for=coq_module_closure(pid))
     res.problems += ["translator: " + p for p in tp]
     src = os.path.join(COQ, "theories", "Properties_%s.v" % pid)
     if not os.path.exists(src):
